@@ -6,7 +6,7 @@
    value is proved to be Tr(rho P_1...P_k) and, divided by 2^r_sigma as the code does, Tr(rho sigma) (Proofs/OverlapFacts.v; pure rho, as the code requires).
    The group-sum expansion of rho itself is C19; float arithmetic of the polynomial path is outside the model. *)
 From Coq Require Import QArith Qcanon.
-From PC Require Import Model.Base Model.Pauli Model.CMap Model.Tableau Model.Spec Model.Poly Proofs.TableauInv Proofs.MeasureFacts Model.PolySem Model.Sample Proofs.TraceFacts Proofs.ProjectorFacts Proofs.OverlapFacts.
+From PC Require Import Model.Base Model.Pauli Model.CMap Model.Tableau Model.Spec Model.Poly Proofs.TableauInv Proofs.MeasureFacts Model.PolySem Model.Sample Proofs.TraceFacts Proofs.ProjectorFacts Proofs.OverlapFacts Proofs.ProbSumFacts.
 Open Scope Z_scope.
 
 Theorem C07_expectation_plus_one : forall n t o, tableau_ok n t -> length (fst o) = n -> hermP o -> (expect1 t o = 1 <-> in_group n t o).
@@ -70,3 +70,17 @@ Theorem C07_projector_product_is_the_state : forall n s k k', tableau_ok n s -> 
   amp (proj_prod n (stabilizers s)) k k' = cmul (two_pow (rk s)) (amp (density_poly s) k k').
 Proof. exact proj_prod_density. Qed.
 Print Assumptions C07_projector_product_is_the_state.
+(* BIT-STRING PROBABILITIES.  get_prob(b) runs the sequential-projection kernel on the observables (-1)^{b_q} Z_q: their projector product is |b><b| exactly, the value
+   returned is the diagonal entry <b|rho|b>, it is a non-negative real, and the 2^N values sum to one *)
+Theorem C07_get_prob_is_the_diagonal_of_rho : forall n t bits, tableau_ok n t -> rk t = 0%nat -> length bits = n ->
+  let '(_, zero, halv) := projection_trace t (bit_obs n bits) in trace_value zero halv = amp (density_poly t) bits bits.
+Proof. exact get_prob_is_diagonal. Qed.
+Print Assumptions C07_get_prob_is_the_diagonal_of_rho.
+Theorem C07_get_prob_sums_to_one : forall n t, tableau_ok n t -> rk t = 0%nat ->
+  csum (map (fun bits => let '(_, zero, halv) := projection_trace t (bit_obs n bits) in trace_value zero halv) (all_kets n)) = c1.
+Proof. exact get_prob_sums_to_one. Qed.
+Print Assumptions C07_get_prob_sums_to_one.
+Theorem C07_basis_projector : forall n bits k k', length bits = n -> length k = n ->
+  amp (proj_prod n (bit_obs n bits)) k k' = if ket_eqb k bits && ket_eqb k' bits then c1 else c0.
+Proof. exact bit_projector. Qed.
+Print Assumptions C07_basis_projector.
